@@ -43,7 +43,7 @@ structure DepTy where
   deriving Repr, Inhabited
 
 def fieldDepTy (optionalFields : Opt) (fld : Field) : DepTy :=
-  let ty := fld.attr.typeAs.getD fld.ty
+  let ty := effTy fld
   let nullable := match optionalFields, fld.attr.optional with
     | _, .optional => false
     | _, .nullable => true
@@ -79,12 +79,12 @@ def typeDefDeps (attr : SAttr) (shape : Shape) (fields : List Field) : List Dep 
       | [fld] =>
         if fld.attr.skip || fld.attr.typeOverride.isSome then []
         else
-          let t : DepTy := { ty := fld.attr.typeAs.getD fld.ty, inner := false }
+          let t : DepTy := { ty := effTy fld, inner := false }
           if fld.attr.inline then [.transitive t] else push t
       | _ => fields.flatMap fun fld =>
         if fld.attr.skip || fld.attr.typeOverride.isSome then []
         else
-          let t : DepTy := { ty := fld.attr.typeAs.getD fld.ty, inner := false }
+          let t : DepTy := { ty := effTy fld, inner := false }
           if fld.attr.inline then [.transitive t] else push t
 
 /-- the `Dependencies` the derive records for an item, in source order (the real set is a
@@ -189,17 +189,32 @@ def visitDeps (env : Env) : Nat → RTy → List Visited
     | _ => []
 end
 
+/-- the placeholder substitution `decl()` evaluates the body at: non-concretised parameters are
+    bound to themselves (the dummy structs shadowing them), concretised ones to their concrete type -/
+def declSubst (it : Item) : List (Str × RTy) := it.generics.map fun g =>
+  match (it.attr.concrete.find? (·.1 = g.name)).map (·.2) with
+  | some c => (g.name, c)
+  | none => (g.name, .param g.name)
+
+def bindersOf (env : Env) : List GenericParam → Res (List Str)
+  | [] => .ok []
+  | g :: gs =>
+    match (match g.default with
+      | some dflt => (nameS env dflt).map fun n => g.name ++ " = ".toList ++ n
+      | none => (.ok g.name : Res Str)), bindersOf env gs with
+    | .ok x, .ok xs => .ok (x :: xs)
+    | .panic w, _ => .panic w
+    | _, .panic w => .panic w
+
+/-- `format_generics` (utils.rs): the binders of the declaration — the non-concretised type
+    parameters in order, each with its default -/
+def declBinders (env : Env) (it : Item) : Res (List Str) :=
+  bindersOf env (it.generics.filter fun g => (it.attr.concrete.find? (·.1 = g.name)).isNone)
+
 /-- `decl()` (lib.rs generate_decl_fn) -/
 def declS (cfg : Cfg) (env : Env) (fuel : Nat) (it : Item) : Res Str := do
-  let σ : List (Str × RTy) := it.generics.map fun g =>
-    match (it.attr.concrete.find? (·.1 = g.name)).map (·.2) with
-    | some c => (g.name, c)
-    | none => (g.name, .param g.name)
-  let d ← itemDef cfg env fuel it σ
-  let ps ← (it.generics.filter fun g => (it.attr.concrete.find? (·.1 = g.name)).isNone).mapM fun g =>
-    match g.default with
-    | some dflt => do let n ← nameS env dflt; pure (g.name ++ " = ".toList ++ n)
-    | none => (.ok g.name : Res Str)
+  let d ← itemDef cfg env fuel it (declSubst it)
+  let ps ← declBinders env it
   let generics := if ps = [] then [] else "<".toList ++ intercalate ", ".toList ps ++ ">".toList
   pure ("type ".toList ++ tsName it ++ generics ++ " = ".toList ++ d.1 ++ ";".toList)
 
@@ -215,27 +230,32 @@ def withoutGenerics (it : Item) : RTy :=
     | some c => c
     | none => .param "Dummy".toList)
 
+/-- one iteration of the loop of `generate_imports` (export.rs:344-361) -/
+def importStep (esm : Bool) (cwd outDir path : Str) (acc : Option (Except ExportErr Merge.Imports)) (d : Visited) :
+    Option (Except ExportErr Merge.Imports) :=
+  match acc with
+  | none => none
+  | some (.error e) => some (.error e)
+  | some (.ok m) =>
+    match Path.importPath esm cwd path (Path.join outDir d.path) with
+    | none => none
+    | some (.error e) => some (.error e)
+    | some (.ok rel) =>
+      if Path.isSameFile path rel then some (.ok m)
+      else some (.ok (Merge.insertImport rel d.ident m))
+
+/-- `.collect::<BTreeMap<&String, &Dependency>>()`: the candidates (everything but the type's own
+    instantiation) sorted by name, the LAST entry of a name winning -/
+def dedupByName (it : Item) (deps : List Visited) : List Visited :=
+  let cand := deps.filter fun d => !RTy.beq d.ty (withoutGenerics it)
+  let names := cand.foldl (fun acc d => insertSorted d.ident acc) []
+  names.filterMap fun n => cand.reverse.find? (·.ident = n)
+
 /-- `generate_imports::<T::WithoutGenerics>` (export.rs:326-381) with the dependency list visited
     in the order `deps`; `none` = `from.parent().unwrap()` panics -/
 def generateImports (esm : Bool) (cwd outDir : Str) (it : Item) (deps : List Visited) : Option (Except ExportErr Str) :=
-  let self := withoutGenerics it
   let path := Path.join outDir (outputPath it)
-  -- `.collect::<BTreeMap<&String, &Dependency>>()`: sorted by name, the LAST entry of a name wins
-  let cand := deps.filter fun d => !RTy.beq d.ty self
-  let names := cand.foldl (fun acc d => insertSorted d.ident acc) []
-  let dedup : List Visited := names.filterMap fun n => cand.reverse.find? (·.ident = n)
-  let step (acc : Option (Except ExportErr Merge.Imports)) (d : Visited) : Option (Except ExportErr Merge.Imports) :=
-    match acc with
-    | none => none
-    | some (.error e) => some (.error e)
-    | some (.ok m) =>
-      match Path.importPath esm cwd path (Path.join outDir d.path) with
-      | none => none
-      | some (.error e) => some (.error e)
-      | some (.ok rel) =>
-        if Path.isSameFile path rel then some (.ok m)
-        else some (.ok (Merge.insertImport rel d.ident m))
-  match dedup.foldl step (some (.ok [])) with
+  match (dedupByName it deps).foldl (importStep esm cwd outDir path) (some (.ok [])) with
   | none => none
   | some (.error e) => some (.error e)
   | some (.ok m) => some (.ok (Merge.renderImports m ++ ['\n']))
